@@ -69,6 +69,9 @@ def run_one(path, tier, check_props=None, scale=None):
         shutil.rmtree(scratch, ignore_errors=True)
 
 
+RUN_KEYS = set()
+
+
 def main():
     ap = argparse.ArgumentParser()
     ap.add_argument("patches", nargs="*")
@@ -92,9 +95,16 @@ def main():
         for fu in cf.as_completed(futs):
             key, out = fu.result()
             results[key] = out
+            RUN_KEYS.add(key)
             print(key, out["outcome"], {k: (v["exit"], v["buckets"][:3]) for k, v in out.get("checks", {}).items()}, flush=True)
     os.makedirs(os.path.dirname(res_path), exist_ok=True)
-    json.dump(dict(sorted(results.items())), open(res_path, "w"), indent=1)
+    # merge with what another run may have written in the meantime (own entries win)
+    mine = results
+    latest = json.load(open(res_path)) if os.path.exists(res_path) else {}
+    latest.update({k: v for k, v in mine.items() if k in RUN_KEYS})
+    for k, v in mine.items():
+        latest.setdefault(k, v)
+    json.dump(dict(sorted(latest.items())), open(res_path, "w"), indent=1)
 
 
 if __name__ == "__main__":
